@@ -45,7 +45,9 @@ DCONF = {
                     FSs=[], MaxDocs=2, MaxEvents=10),
     # thorough
     'handles+': dict(DBASE, Vs=['word'], STs=['', 'core', 'local', 'st', 'bt', 'hdl'], SIs=['ff', 'tf'], DTs=['', 'hs', 'hb', 'h1'], DXs=[False, True],
-                     EXs=[False], FSs=[], MaxDocs=3),
+                     EXs=[False], FSs=[], MaxDocs=2, MaxEvents=10),
+    'handles3+': dict(DBASE, Vs=['word'], STs=['', 'core', 'local', 'st', 'bt'], SIs=['ff'], DTs=['', 'hs', 'hb'], DXs=[False], EXs=[False],
+                      FSs=[], MaxDocs=3),
     'markers+': dict(DBASE, EmptyColls=False, MaxDocs=2, MaxEvents=11, Vs=['word', 'docsep', 'dashkey', 'dotkey', 'dotsfold'],
                      Widths=[5, 80], DXs=[False], EXs=[False]),
     'open+':  dict(DBASE, Ss=['none', 'literal', 'folded', 'single'], Vs=['empty', 'word', 'nl', 'nlnl'], MaxDocs=3, EXs=[False]),
@@ -57,7 +59,7 @@ DCONF = {
     'four+':  dict(DBASE, Vs=['empty', 'nlnl'], MaxDocs=4, MaxEvents=18, FSs=[], EXs=[False]),
     'canon+': dict(DBASE, Canons=[True, False], LBs=['rn', 'r'], MaxDocs=3, DXs=[False], FSs=[]),
 }
-DTIERS = {'quick': ['open', 'roots', 'dirs', 'canon', 'markers', 'handles'], 'thorough': ['open+', 'ends+', 'roots+', 'dirs+', 'dirs3+', 'four+', 'canon+', 'markers+', 'handles+']}
+DTIERS = {'quick': ['open', 'roots', 'dirs', 'canon', 'markers', 'handles'], 'thorough': ['open+', 'ends+', 'roots+', 'dirs+', 'dirs3+', 'four+', 'canon+', 'markers+', 'handles+', 'handles3+']}
 KEEP = r'outcome \|-> "done"'
 EMIT_PAIRS = [('python', 'Dumper', 'python', 'Loader'), ('python', 'Dumper', 'libyaml', 'CLoader'),
               ('libyaml', 'CDumper', 'libyaml', 'CLoader'), ('libyaml', 'CDumper', 'python', 'Loader')]
